@@ -172,6 +172,10 @@ Definition val_is (a b : val) : option bool :=
   | _, _ => None
   end.
 
+Definition is_none (v : val) : bool := match v with VNone => true | _ => false end.
+Lemma val_is_none_r v : val_is v VNone = Some (is_none v).
+Proof. destruct v; reflexivity. Qed.
+
 Definition mro_of (P : prog) (cls : string) : list string :=
   match aget cls (pmro P) with
   | Some l => l
